@@ -166,7 +166,7 @@ class ExecExpr(ExecCore):
         if kind == 'func':
             # a function reached as <module>.<name> may be defined elsewhere (closures of a factory, re-exports): a contract
             # registered under the access path names it
-            alias = '%s:%s' % (modname, name)
+            alias = '%s:%s' % (front.MODULE_ALIASES.get(modname, modname), name)
             if payload not in SP.CONTRACTS and alias in SP.CONTRACTS:
                 payload = alias
             return SV(VNone, Ty.TFunc(payload))
@@ -1063,6 +1063,20 @@ class ExecExpr(ExecCore):
                 out.append((ok, SV(VStr(z3.SubString(s, i, 1)), Ty.STR)))
             return out, raises
         if isinstance(ty, Ty.TInst):
+            from .state import class_seq, GHOSTS
+            cs = class_seq(ty.cls)
+            if cs and isinstance(key.ty, (Ty.TInt, Ty.TBool)):
+                seq = GHOSTS[cs[0]][0](base.term)
+                ln = z3.Length(seq)
+                i = self.norm_index(key, ln)
+                ok, bad = self.fork(st, And(0 <= i, i < ln), None)
+                out, raises = [], []
+                if bad is not None:
+                    raises.append(self.raised(bad, 'builtins:IndexError'))
+                if ok is not None:
+                    ok.assume(shape(ok, seq[i], cs[1]))
+                    out.append((ok, SV(seq[i], cs[1])))
+                return out, raises
             owner, member = front.method_owner(ty.cls, '__getitem__')
             if owner is not None and hasattr(member, '__module__') and hasattr(member, '__qualname__'):
                 fq = '%s:%s' % (member.__module__, member.__qualname__)
